@@ -92,6 +92,14 @@ func genBridge(t *rapid.T) Round {
 	r.P["block"] = rapid.SampledFrom([]int{0, 0, 1, 2}).Draw(t, "block") // cloud double: 0 never parks, 1 parks after apply, 2 parks before apply
 	r.P["hfault"] = rapid.IntRange(0, 3).Draw(t, "hfault")               // bit 1: an earlier cleanup handler fails, bit 2: it is slow
 	r.P["pathFirst"] = 0
+	if r.P["variant"] == 1 && rapid.IntRange(0, 1).Draw(t, "lateAttach") == 1 {
+		// three-step history: the bridge is closed by something else than its lifecycle's deferred
+		// Close (the racing closers), then connections are attached (the target client arrives
+		// late, the source reconnects - the bridge is still in tunnelBridges), then the lifecycle's
+		// deferred Close runs: every connection ever attached must end up closed
+		r.P["lateAttach"] = 1
+		r.Paths = drawPaths(t, []string{"source-eof", "parent-cancel"}, 1)
+	}
 	if r.P["variant"] == 0 && rapid.IntRange(0, 6).Draw(t, "pathFirst") == 0 {
 		r.P["pathFirst"] = 1 // the completion path fires alone first and must close the bridge by itself
 		r.Paths = []string{rapid.SampledFrom([]string{"source-eof", "target-eof"}).Draw(t, "firstPath")}
@@ -154,8 +162,19 @@ func runBridge(r Round) *outcome {
 	rc := newRace("bridge")
 	var startReturned atomic.Bool
 	// what SessionManager.runBridgeLifecycle does
+	lateAttach := r.p("lateAttach") == 1
+	finalGate := make(chan struct{}) // holds back the lifecycle's deferred Close (late-attach rounds)
+	var gateOnce sync.Once
+	openFinal := func() { gateOnce.Do(func() { close(finalGate) }) }
+	if !lateAttach {
+		openFinal()
+	}
+	defer openFinal()
 	rc.bg("Start", func() {
-		defer b.Close()
+		defer func() {
+			<-finalGate
+			b.Close()
+		}()
 		b.Start()
 		startReturned.Store(true)
 	})
@@ -166,6 +185,7 @@ func runBridge(r Round) *outcome {
 		attached = true
 	}
 	cleanupRound := func() {
+		openFinal()
 		cc.open()
 		b.Close()
 		srcPeer.Close()
@@ -283,6 +303,19 @@ func runBridge(r Round) *outcome {
 		}
 		cc.open()
 	}
+	var src2Peer, src2Conn *vkit.BufConn
+	if lateAttach {
+		// step 1 has happened once the closers made Start return; step 2: late attachments
+		if pollUntilBlocked(3*time.Second, 20*time.Second, startReturned.Load) {
+			b.SetTargetConnection(tgtTC)
+			src2Peer, src2Conn = vkit.NewBufConnPair("10.2.0.3:3333", "10.0.0.1:8000")
+			src2Stream := stream.NewStreamProcessor(src2Conn, src2Conn, parent)
+			defer func() { src2Peer.Close(); src2Conn.Close(); src2Stream.Close() }()
+			b.SetSourceConnection(session.CreateTunnelConnection("conn-src2", src2Conn, src2Stream, 7, "m1", tid))
+			o.extraClass = append(o.extraClass, "conns-attached-after-first-close")
+		}
+		openFinal() // step 3: the lifecycle's deferred Close
+	}
 	// stage 1: everything the bridge started must end because Close closed the bridge's own conns
 	stage1, stuck := rc.waitBlocked(3*time.Second, 20*time.Second)
 	var leaks1 []string
@@ -328,6 +361,11 @@ func runBridge(r Round) *outcome {
 	}
 	if attached && !waiting && !tgtConn.IsClosed() {
 		o.failf("C16/bridge/target-conn-left-open", "target conn (attached before Close) still open after Bridge.Close")
+	}
+	if lateAttach && src2Conn != nil && (!tgtConn.IsClosed() || !src2Conn.IsClosed()) {
+		o.failf("C16/bridge/conn-attached-after-first-close-left-open",
+			"the bridge was closed by %d concurrent Close calls, then a target and a new source connection were attached, then the lifecycle's deferred Close ran and returned: target conn closed=%v, new source conn closed=%v",
+			r.Closers, tgtConn.IsClosed(), src2Conn.IsClosed())
 	}
 	if waiting && attached && !tgtConn.IsClosed() {
 		o.extraClass = append(o.extraClass, "late-target-conn-left-open")
